@@ -83,16 +83,16 @@ class EdgeAnnotator(GraphAnnotator):
             return
 
         seg = self.tracks.segmentation
-        # TODO: add skip edges
         if self.iou_key in keys_to_compute:
-            nodes_by_frame = defaultdict(list)
-            for n in self.tracks.nodes():
-                nodes_by_frame[self.tracks.get_time(n)].append(n)
+            # group the edges by the frames of their endpoints, so that edges that
+            # skip frames are compared in their own two frames as well
+            edges_by_frames = defaultdict(list)
+            for source, target in self.tracks.graph.edges():
+                frames = (self.tracks.get_time(source), self.tracks.get_time(target))
+                edges_by_frames[frames].append((source, target))
 
-            for t in range(seg.shape[0] - 1):
-                nodes_in_t = nodes_by_frame[t]
-                edges = list(self.tracks.graph.out_edges(nodes_in_t))
-                self._iou_update(edges, seg[t], seg[t + 1])
+            for (t_source, t_target), edges in edges_by_frames.items():
+                self._iou_update(edges, seg[t_source], seg[t_target])
 
     def _iou_update(
         self,
